@@ -219,6 +219,18 @@ impl From<NumberValue> for f64 {
     }
 }
 
+impl JsonValue {
+    /// The value of an arithmetic result: JSON has no infinity or NaN, so an
+    /// overflowing result is nothing.
+    pub fn from_finite(value: f64) -> Option<Self> {
+        if value.is_finite() {
+            Some(value.into())
+        } else {
+            None
+        }
+    }
+}
+
 impl From<f64> for JsonValue {
     fn from(value: f64) -> Self {
         if value.fract() == 0.0 {
